@@ -70,8 +70,25 @@ def site_families(s):
 def is_enum_type(cpp_type: str, cls) -> bool:
     if cls is None:
         return False
-    name = TypeInfo(cpp_type).name
-    return name in [e[0] for e in cls['enums']] or name in cls.get('ns_enums', [])
+    ti = TypeInfo(cpp_type)
+    name = ti.name
+    flat, depth = [], 0
+    for ch in ti.bare:
+        depth += ch == '<'
+        if depth == 0:
+            flat.append(ch)
+        depth -= ch == '>'
+    quals = ''.join(flat).split('::')[:-1]
+    if name in [e[0] for e in cls['enums']]:
+        # a qualified name is the class's enum only if the qualification ends in the class
+        # (F-35); `size_t::T`, `ns::T` name something else
+        own = {cls['name'], cls['cpp'].split('<')[0].split('::')[-1]}
+        if not quals or quals[-1] in own:
+            return True
+    # ... and the namespace's enum only if it is spelled in that namespace (`K::T` with
+    # K = size_t is `size_t::T`, some other type)
+    return name in cls.get('ns_enums', []) and (not quals or
+                                                list(quals) == list(cls['path']))
 
 
 def nows(s):
